@@ -100,6 +100,15 @@ def corpus():
 def gen_cases(rng, tier):
     n = {"quick": 120, "thorough": 1200, "search": 400}[tier]
     cases = [_table(rng) for _ in range(n)]
+    # the same calls through the command line (`cnvkit.py call` on a written .cns): option parsing, file
+    # reading (sorted rows, %.6g values), sample-sex handling and the writer are then inside the tie
+    for _ in range({"quick": 16, "thorough": 160, "search": 16}[tier]):
+        c = _table(rng, 30)
+        if c["in"]["purity_f"] is not None and not (0.0 < c["in"]["purity_f"] <= 1.0):
+            continue
+        c["in"]["cli"] = True
+        c["tag"] += "-cli"
+        cases.append(c)
     # make sure every (ploidy, hapX, female, par) cell appears with an active purity
     if tier != "search":
         for ploidy in range(1, 7):
